@@ -35,8 +35,10 @@ from .scm import h
 from .semantics import Malformed, MultiWorld, Undefined, compile_expr
 
 NAMES = ("A", "B", "C")
-CARD = {"A": 2, "B": 3, "C": 2}
+NAMES_PRINT = ("A", "B", "C", "D")  # the print/parse family has a fourth variable (it needs no joint tables)
+CARD = {"A": 2, "B": 3, "C": 2, "D": 2}
 A, B, C = (Variable(n) for n in NAMES)
+D = Variable("D")
 PI1 = Variable("π1")
 
 
@@ -109,14 +111,14 @@ class OpaqueWorld:
         return Fr(1 + h("opaque", self.salt, pop, key) % 89, 97)
 
 
-def all_envs(linked: bool, plus: bool):
-    """Environments over A, B, C.
+def all_envs(linked: bool, plus: bool, names=NAMES):
+    """Environments over the given variable names.
 
     linked: (N, None) and (N, False) are one value (L2 convention); otherwise independent.
     plus:   also provide an independent (N, True) value.
     """
     slots = []
-    for n in NAMES:
+    for n in names:
         slots.append(((n, None), range(CARD[n])))
         if not linked:
             slots.append(((n, False), range(CARD[n])))
@@ -126,7 +128,7 @@ def all_envs(linked: bool, plus: bool):
     for vals in itt.product(*[r for _, r in slots]):
         env = {k: v for (k, _), v in zip(slots, vals)}
         if linked:
-            for n in NAMES:
+            for n in names:
                 env[(n, False)] = env[(n, None)]
         out.append(env)
     return out
@@ -303,6 +305,17 @@ def atoms(alpha, family="calc"):
                 P[C](A, B),
                 P[+C](A),
                 PopulationProbability(population=PI1, distribution=Distribution(children=(A,), parents=(B,))),
+                # one input per shortcut visible in the code: population-tagged (interventional) joints for Sum.simplify,
+                # two-intervention subscripts that differ only in value marks (sort keys over frozensets), repeated factors
+                # and unequal multiplicities for fraction cancellation, sums that differ only in their ranges
+                PopulationProbability(population=PI1, distribution=Distribution(children=(A, B))),
+                PopulationProbability(population=PI1, distribution=Distribution(children=(A, B))).intervene(C),
+                P(A @ (-B, +C)),
+                P(A @ (+B, -C)),
+                P(A) * P(A),
+                Fraction(P(A) * P(A) * P(B), P(A) * P(C)),
+                Sum[A](P(A, B | C)),
+                Sum[B](P(A, B | C)),
             ]
         return base
     if family == "print":
@@ -330,6 +343,14 @@ def atoms(alpha, family="calc"):
                 P(A @ B, C),
                 PopulationProbability(population=PI1, distribution=Distribution(children=(A,), parents=(B,))).intervene(C),
                 Q[A, B](C),
+                # first variable's world a proper subset of the others' (level-2 shorthand must not be used)
+                P(A @ C, B @ (C, D)),
+                P(B @ C | A @ (C, +D)),
+                # factors whose sort keys tie (sums that differ only in their ranges, Q-factors with equal minima)
+                Sum[A](P(A, B | C)),
+                Sum[B](P(A, B | C)),
+                Q[A](B, C),
+                Q[A](B, D),
             ]
         return base
     raise ValueError(family)
@@ -489,7 +510,8 @@ class Explorer:
             self.atom_states.setdefault(s.key, s)
         if family == "print":
             self.worlds = [OpaqueWorld(salt=f"o{seed}")]
-            self.envs = all_envs(linked=False, plus=True)
+            # every key a state can read is enumerated through relevant_envs(); the base list only fixes the others
+            self.envs = None
         else:
             self.worlds = [TableWorld(salt=f"w{seed}")] + ([TableWorld(salt=f"x{seed}")] if tier == "thorough" else [])
             plus = any("+" in str(a) for a in self.atom_list)
@@ -497,6 +519,10 @@ class Explorer:
 
     def envs_for(self, *free_sets):
         free = set().union(*free_sets) if free_sets else set()
+        if self.envs is None:
+            # print family: enumerate exactly the keys that are read (plain, - and + values are independent)
+            keys = sorted(free, key=str)
+            return [dict(zip(keys, vals)) for vals in itt.product(*[range(CARD[n]) for n, _ in keys])]
         return relevant_envs(self.envs, free)
 
     def run(self, res, lo, hi, on_state=None, on_transition=None):
